@@ -103,7 +103,7 @@ def units(chk: Check) -> List[Tuple[str, FuncInfo, Any, Set[str], str]]:
         fi = F.func(q)
         ignore = {om.self_param(F, q), om.state_param(F, q)}
         kinds = om.op_field_kinds(F, cls)
-        strs = om.dispatch_strings(F, q) if kinds.get('op') == 'str' else []
+        strs = om.op_specs(F, cls)
         for op in (strs or [None]):
             lab = q + (' [op=%r]' % op if op else '')
             out.append((lab, fi, lambda cls=cls, op=op: om.eval_paths(F, cls, op), ignore, fi.where))
